@@ -294,6 +294,9 @@ func (win Window) Wrap(segs ...Segment) (col int, row int) {
 	)
 	for _, seg := range segs {
 		rest := seg.Text
+		// The state returned at the end of a string can't be used to
+		// start on another one
+		state = -1
 		for len(rest) > 0 {
 			if row >= rows {
 				break
